@@ -131,6 +131,11 @@ def monitor_c02(ctx):
                     f'{n} = v => v; [3, 1, 2] | {n}', f'{n} = (a, b) => a; {n}(1)'):
             pays.append({'line': gens2.eval_line(src)})
     pays.append({'line': gens2.eval_line('dict[0]')})
+    # %a.b% names whose head is bound to host data: the dot is part of the NAME (no attribute of a host value is ever read)
+    ent = f'(S:{hx("%s%")} S:{hx("abc")}) (S:{hx("%l%")} (L 1 I:1 I:2)) (S:{hx("%n%")} I:5) (S:{hx("%d%")} D:0:15:-1:c)'
+    for src in ['%s.upper%', '%s.format%', '[%l.append%]', 'x = %l.copy%; x', '%n.real%', '%n.to_bytes%', '%d.as_tuple%', '%s.upper.__self__%', '%l.0%',
+                'try_apply(w => %l.pop%, 0)', '%s.join%(["a"])', 'map([1], v => %n.bit_length%)', '%d.quantize%', '%n.numerator.real%']:
+        pays.append({'line': gens2.eval_line(src, ent)})
     pays.append({'line': gens2.eval_line('x = dict["a"]; [x]')})
     # error paths of the library itself (regex timeout on a catastrophic pattern, invalid patterns, arithmetic signals, deep
     # recursion): reporting an error must not do I/O either
